@@ -495,28 +495,8 @@ impl<'a> Interp<'a> {
         self.db()
             .compact_range(Some(RESERVED_LO)..Some(RESERVED_HI));
         self.wait_idle()?;
-        let st = self.db().verif_state();
-        if let Some(b) = &st.bad_state {
-            return self.fail(format!("{when}: database is in a bad state: {b}"));
-        }
-        let layout = self.db().verif_layout();
-        let mut want: BTreeSet<String> = BTreeSet::new();
-        want.insert("db/CURRENT".into());
-        want.insert(format!("db/MANIFEST-{}.manifest", st.manifest_number));
-        want.insert(format!("db/wal/wal-{}.log", st.db_wal_number));
-        for f in &layout {
-            want.insert(format!("db/data/{}.rdb", f.number));
-        }
-        let have: BTreeSet<String> = self.fs.file_names().into_iter().collect();
-        let canon = |s: &BTreeSet<String>| -> BTreeSet<String> { s.iter().map(|p| canon_path(p)).collect() };
-        let (want_c, have_c) = (canon(&want), canon(&have));
-        if want_c != have_c {
-            let extra: Vec<_> = have_c.difference(&want_c).cloned().collect();
-            let missing: Vec<_> = want_c.difference(&have_c).cloned().collect();
-            return self.fail(format!(
-                "{when}: directory differs from the needed files; dead files kept: {extra:?}; live files missing: {missing:?}; versions alive: {}",
-                st.num_versions
-            ));
+        if let Err(e) = dir_exact(self.db(), &self.fs) {
+            return self.fail(format!("{when}: {e}"));
         }
         if pinned_before {
             self.stats.bump("dirlist_after_pinned_version");
@@ -986,6 +966,33 @@ fn compactions_total() -> u64 {
     raindb::verif::counter(Counter::TableCompaction)
         + raindb::verif::counter(Counter::TrivialMove)
         + raindb::verif::counter(Counter::MemtableFlushed)
+}
+
+/// C11(b): the directory holds exactly CURRENT, the current manifest, the active WAL and the tables
+/// of the current version. Call only when everything is released and background work is idle.
+pub fn dir_exact(db: &DB, fs: &MemFs) -> Result<(), String> {
+    let st = db.verif_state();
+    if let Some(b) = &st.bad_state {
+        return Err(format!("database is in a bad state: {b}"));
+    }
+    let layout = db.verif_layout();
+    let mut want: BTreeSet<String> = BTreeSet::new();
+    want.insert("db/CURRENT".into());
+    want.insert(format!("db/MANIFEST-{}.manifest", st.manifest_number));
+    want.insert(format!("db/wal/wal-{}.log", st.db_wal_number));
+    for f in &layout {
+        want.insert(format!("db/data/{}.rdb", f.number));
+    }
+    let have: BTreeSet<String> = fs.file_names().into_iter().collect();
+    if want != have {
+        let extra: Vec<_> = have.difference(&want).cloned().collect();
+        let missing: Vec<_> = want.difference(&have).cloned().collect();
+        return Err(format!(
+            "directory differs from the needed files; dead files kept: {extra:?}; live files missing: {missing:?}; versions alive: {}",
+            st.num_versions
+        ));
+    }
+    Ok(())
 }
 
 pub fn canon_path(p: &str) -> String {
